@@ -674,12 +674,69 @@ pub fn record_conclusions(a: &Args, out: &mut TraceOut) -> Value {
     json!({"conclusion_runs": runs})
 }
 
+/// A reply where none is allowed: every kind of own-address (and foreign) message answering the k-th data chunk, for
+/// controller addresses that coincide with chunk offsets (0x10, 0x20, 0x100, ...) and for ordinary ones; the bus is
+/// cooperative afterwards, so a controller that carries on is seen to carry on.
+pub fn record_chunk_replies(a: &Args, out: &mut TraceOut) -> Value {
+    let thorough = a.tier == "thorough";
+    let mut runs = 0usize;
+    for (ai, me) in [0x0010u16, 0x0020, 0x0100, 0x0030, 0x0003, 0x0000].into_iter().enumerate() {
+        let a_ = Address(me);
+        let typ = ALL_TYPES[ai % 11];
+        // three pages of 21 chunks (336 bytes): offsets 0x000..0x140 occur, 0x10/0x20/0x30/0x100 among them
+        let pages: Vec<Page<'static>> = (0..2).map(|i| { let mut b = vec![0x44u8; 21 * 16]; b[0] = i as u8; page_of(&b) }).collect();
+        for name in ["send_pages", "configure"] {
+            let nchunks = if name == "configure" { 1 } else { 42 };
+            for at in 0..nchunks {
+                if !(thorough || name == "configure" || at < 4 || at % 21 == (me as usize / 16) % 21 || at % 7 == ai) {
+                    continue;
+                }
+                for (ri, rep) in [Message::ReportState(a_, State::PixelsInProgress), Message::ReportState(a_, State::ConfigInProgress), Message::ReportState(a_, State::PixelsReceived),
+                                  Message::AckOperation(a_, Operation::ReceivePixels), Message::ReportState(Address(me ^ 1), State::PixelsInProgress)].into_iter().enumerate() {
+                    if !thorough && (ri + at) % 2 == 1 && at >= 4 {
+                        continue;
+                    }
+                    out.balance();
+                    let nm = name.to_string();
+                    let mut seen = 0usize;
+                    let rj = j::msg(&rep);
+                    let bus = Rc::new(RefCell::new(ScriptedBus {
+                        next: Box::new(move |_, m| {
+                            let (ok, _) = if nm == "send_pages" { (State::PixelsReceived, State::PixelsFailed) } else { (State::ConfigReceived, State::ConfigFailed) };
+                            Some(match m {
+                                Message::Hello(_) => Reply::Msg(Message::ReportState(a_, State::Unconfigured)),
+                                Message::RequestOperation(_, op) => Reply::Msg(Message::AckOperation(a_, *op)),
+                                Message::QueryState(_) => Reply::Msg(Message::ReportState(a_, ok)),
+                                Message::SendData(_, _) => {
+                                    seen += 1;
+                                    if seen == at + 1 { Reply::Msg(j::msg_from(&rj)) } else { Reply::None }
+                                }
+                                _ => Reply::None,
+                            })
+                        }),
+                        log: vec![],
+                        exhausted: false,
+                    }));
+                    let sign = Sign::new(bus.clone(), a_, typ);
+                    let pg: Vec<Page<'static>> = if name == "configure" { vec![] } else { pages.clone() };
+                    let outc = run_call(&sign, name, &pg);
+                    let b = bus.borrow();
+                    emit_conversation(out, name, me, typ, &pg, &b.log, &outc);
+                    runs += 1;
+                }
+            }
+        }
+    }
+    json!({"chunk_reply_runs": runs})
+}
+
 pub fn record_c10(a: &Args) -> usize {
     let mut out = TraceOut::new(&a.out, "C10", a.shards);
     let d = record_directed_ctl(a, &mut out, true);
     println!("INFO {}", json!({"directed": d}));
     let adv = record_adversarial(a, &mut out, 0xC10, if a.tier == "thorough" { 40_000 } else { 2_000 });
     let _ = record_conclusions(a, &mut out);
+    let _ = record_chunk_replies(a, &mut out);
     let mut small = Args { tier: "quick".into(), seed: a.seed, out: a.out.clone(), shards: a.shards, rest: vec![] };
     small.tier = "quick".into();
     let t = record_transfers(&small, &mut out, false);
@@ -747,6 +804,7 @@ pub fn record_c11(a: &Args) -> usize {
     let adv = record_adversarial(a, &mut out, 0xC11, if a.tier == "thorough" { 40_000 } else { 2_000 });
     let d = record_directed_ctl(a, &mut out, false);
     let c = record_conclusions(a, &mut out);
+    let _ = record_chunk_replies(a, &mut out);
     println!("INFO {}", json!({"adversarial": adv, "directed": d, "conclusions": c}));
     out.finish()
 }
